@@ -73,7 +73,7 @@ func genPair(d pairDesc, rng *rand.Rand, quick bool) []*pairCase {
 	// e([a]G1,[b]G2) * e([-ab]G1, G2) = 1
 	mk("check", "n=2,product=1", 2, []*big.Int{a, neg(mul(a, b))}, []*big.Int{b, one}, -1, -1, "", -1, true)
 	mk("check", "n=2,product!=1", 2, []*big.Int{a, neg(new(big.Int).Add(mul(a, b), one))}, []*big.Int{b, one}, -1, -1, "", -1, true)
-	if !quick || d.cost <= 4000 {
+	if true {
 		c, e := rk(), rk()
 		// ab + ce + x*1 = 0
 		mk("check", "n=3,product=1", 3, []*big.Int{a, c, neg(new(big.Int).Add(mul(a, b), mul(c, e)))}, []*big.Int{b, e, one}, -1, -1, "", -1, true)
@@ -99,6 +99,34 @@ func genPair(d pairDesc, rng *rand.Rand, quick bool) []*pairCase {
 	mk("ong1", "off-curve(x<->y)", 0, []*big.Int{a}, []*big.Int{one}, -1, -1, "swapxy", -1, true)
 	mk("ong2", "subgroup-point", 0, []*big.Int{one}, []*big.Int{b}, -1, -1, "", -1, true)
 	mk("ong2", "off-curve(x<->y)", 0, []*big.Int{one}, []*big.Int{b}, -1, -1, "swapxy", -1, true)
+	if quick {
+		// the in-circuit pairings dominate the cost: the quick tier keeps a fixed
+		// subset per package (everything on BN254 and on the native 2-chain
+		// BLS12-377, the two-pair checks elsewhere)
+		keep := map[string]map[string]bool{
+			"bn254":    {"check:n=2,product=1": true, "check:n=2,product!=1": true, "check:n=3,product=1": true, "check:n=1,P0=identity(product=1)": true, "pair:n=1,expected=native": true, "ong2:subgroup-point": true, "ong2:off-curve(x<->y)": true, "ong1:off-curve(x<->y)": true, "ong1:subgroup-point": true},
+			"bls12381": {"check:n=2,product=1": true, "check:n=2,product!=1": true, "ong1:off-curve(x<->y)": true},
+			"bw6761":   {"ong1:off-curve(x<->y)": true, "ong1:subgroup-point": true},
+			"bls24315": {"check:n=2,product=1": true, "check:n=2,product!=1": true, "pair:n=1,expected=native": true, "check:n=1,P0=identity(product=1)": true},
+		}
+		if k, ok := keep[d.tag]; ok {
+			var sel []*pairCase
+			nIs := 0
+			for _, c := range out {
+				if c.Kind == "isequal" {
+					if nIs < 3 || d.tag == "bn254" {
+						sel = append(sel, c)
+					}
+					nIs++
+					continue
+				}
+				if k[c.Kind+":"+c.Class] {
+					sel = append(sel, c)
+				}
+			}
+			out = sel
+		}
+	}
 	return out
 }
 
